@@ -169,7 +169,7 @@ Definition committed_dtype (a : N) : outcome (dtype * list tag) :=
   | WErr _ => Err
   end.
 Definition shared_dtype (pad : bool) (body : bytes) : outcome (dtype * list tag) :=
-  a <- spec_dec_shared (cO c) pad body;; committed_dtype a.
+  a <- spec_dec_shared (cO c) (cL c) pad body;; committed_dtype a.
 Definition dtype_of_msgs (pad : bool) (ms : list msg_spec) : option (outcome (dtype * list tag)) :=
   match msgs_of 3 ms with
   | m :: _ => Some (if N.testbit (ms_flags m) 1 then shared_dtype pad (ms_data m) else spec_dec_datatype stol pad (ms_data m))
@@ -544,6 +544,11 @@ Definition obj_body (fuel : nat) (rec : N -> bytes -> W unit) (addr : N) (path :
              | Some d => dense_attrs d
              | None => wret []
              end;;
+  (* every use of a committed datatype (a shared datatype message, a compact attribute with a shared datatype) counts in the committed
+     datatype's reference count like a hard link *)
+  _ <<- wforM (fun m => if N.testbit (ms_flags m) 1 then a <<- wlc 46 (spec_dec_shared (cO c) (cL c) pad (ms_data m));; add_link a else wret tt)
+              (msgs_of 3 ms);;
+  _ <<- wforM (fun m => match attr_shared_addr (cO c) (cL c) (ms_data m) with Ok a => add_link a | _ => wret tt end) (msgs_of 12 ms);;
   let names := cnames ++ dnames in
   _ <<- wguardc 93 (nodupb names);;
   match first_of 17 ms with
